@@ -83,6 +83,13 @@ def check(ld, prog, res):
     status, m = programs.classify(prog)
     if status != 'ok':
         return
+    names = [op[0] for op in prog['ops']]
+    if 'cache' in names and 'prefetcht' in names[names.index('cache'):]:
+        # pool workers may request one cached index concurrently (a repeated
+        # index below the pool); whether both miss is a matter of schedule,
+        # which this property does not quantify over
+        res.count('skipped_cache_below_pool')
+        return
     lo = op_name(prog['ops'][-1]) if prog['ops'] else 'source'
     lib_log, ref_log = [], []
     try:
@@ -138,6 +145,37 @@ def _check(ld, prog, m, B, node, lib_log, ref_log, case, lo, res):
         k = min(k, len(ref_marks) - 1)
         return per_stage(full_ref[:ref_marks[k]])
     full_stage = per_stage(full_ref)
+    # Behind a buffering stage the pipeline may legitimately have pulled
+    # source examples that the remaining results never need (the stream ends,
+    # a tail batch is dropped, ...).  When k + look-ahead reaches the end of
+    # the result stream the upper bound is therefore widened by a complete
+    # drain of the pipeline below the last buffering stage.
+    drained = {}
+    if B.lookahead and m.finite:
+        j = max(i for i, op in enumerate(prog['ops'])
+                if op[0] in ('prefetch1', 'parmap', 'prefetcht')
+                or (op[0] in ('concat', 'intersperse', 'zip', 'key_zip')
+                    and isinstance(op[1], dict)))
+        dl = []
+        try:
+            sub = lazyref.Build(LogFns(dl)).run({'src': prog['src'],
+                                                 'ops': prog['ops'][:j + 1]})
+            del dl[:]
+            for _ in sub.it():
+                pass
+        except BaseException:
+            pass
+        mult = max(1, B.lookahead)      # generous: concurrent iterators
+        for st, ids in per_stage(dl).items():
+            drained[st] = ids * mult
+
+    def widen(upper, k):
+        if not drained or k + B.lookahead < len(ref_marks) - 1:
+            return upper
+        out = dict(upper)
+        for st, ids in drained.items():
+            out[st] = out.get(st, []) + ids
+        return out
     # ---- iteration prefixes
     it = iter(ds)
     try:
@@ -159,14 +197,16 @@ def _check(ld, prog, m, B, node, lib_log, ref_log, case, lo, res):
             res.count('prefix_comparisons')
             lib = per_stage(lib_log)
             called += len(lib_log)
-            lower, upper = ref_at(k), ref_at(k + B.lookahead)
+            lower, upper = ref_at(k), widen(ref_at(k + B.lookahead), k)
+            widened = upper is not ref_at and drained and \
+                k + B.lookahead >= len(ref_marks) - 1
             sig = {'last_op': lo, 'buffered': B.lookahead > 0}
             for st in set(lib) | set(lower):
                 a = lib.get(st, [])
                 lo_s, up_s = lower.get(st, []), upper.get(st, [])
                 if B.lookahead == 0:
                     ok = a == lo_s
-                elif B.pool_stage:
+                elif B.pool_stage or widened:
                     ok = sub_multiset(lo_s, a) and sub_multiset(a, up_s)
                 else:
                     ok = is_prefix(a, full_stage.get(st, [])) and \
